@@ -91,6 +91,69 @@ def run(ctx):
                               {"entry": nm, "value": "%x" % v, "example": "startpos moves %s2%s4 vs the same position without the en-passant square" % (f_, f_) if nm.startswith("ep[") else None},
                               key="c04:ztable:" + nm)
     ctx.notes["zobrist_words_checked_nonzero_distinct"] = nz
+    # the same through the real entry point, with the engine's own random tables: inside ONE process of the engine binary the `hash`
+    # shown after `position startpos moves ...` must equal the `hash` shown after `position fen <that position>` (incremental = scratch
+    # through Uci::position_command), and equal positions reached by two move orders must show equal hashes
+    import uciglue
+    exe = engine_binary("plain")
+    gsel = [g for g in games if g[1] and g[0] == posgen.START]
+    ctx.rng.shuffle(gsel)
+    gsel = gsel[: (60 if q else 800)]
+    rcg, gf, eg = run_lines(model, ["g_fen %s | %s" % (f, " ".join(ms)) for f, ms in gsel], shards=NPROC)
+    ucases = []
+    for (f, ms), r in zip(gsel, gf):
+        fs = (r or "").split(" ; ")
+        for k in sorted(set([len(ms)] + [ctx.rng.randrange(1, len(ms) + 1) for _ in range(2)])):
+            if k < len(fs) and fs[k] and not fs[k].startswith("BAD"):
+                ucases.append((("startpos", None, ms[:k]), ("fen", fs[k], [])))
+    flat = [c for pair in ucases for c in pair]
+    obs = uciglue.observe(exe, flat, want=("hash",), per_process=len(flat) or 1, workers=1)     # ONE process: keys are per process
+    byfen = {}
+    nu = 0
+    for i, (a, b) in enumerate(ucases):
+        oa, ob = obs[2 * i], obs[2 * i + 1]
+        nu += 1
+        if oa["hash"] is None or oa["hash"] != ob["hash"]:
+            v2 += 1
+            if v2 <= 6:
+                ctx.violation("UCI level: hash after '%s' is %s, after '%s' it is %s (same position)" % (oa["cmd"][:200], oa["hash"], ob["cmd"], ob["hash"]),
+                              {"session": [oa["cmd"], "printboard", ob["cmd"], "printboard"], "hashes": [oa["hash"], ob["hash"]]}, key="c04:uci:" + oa["cmd"][:200])
+        pos4 = " ".join(b[1].split()[:4])
+        if pos4 in byfen and byfen[pos4][0] != oa["hash"] and v2 < 8:
+            v2 += 1
+            ctx.violation("UCI level: the position '%s' shows hash %s after '%s' and %s after '%s'" % (pos4, byfen[pos4][0], byfen[pos4][1][:150], oa["hash"], oa["cmd"][:150]),
+                          {"session": [byfen[pos4][1], "printboard", oa["cmd"], "printboard"]}, key="c04:ucipath:" + pos4)
+        byfen.setdefault(pos4, (oa["hash"], oa["cmd"]))
+    ctx.notes["uci_level_hash_pairs"] = nu
+    # stateful sessions (related consecutive position commands, take-backs over castling / en passant / promotions, `moves`,
+    # ucinewgame): inside a session equal positions must show equal hashes, and the hash shown must equal the hash of the same
+    # position loaded from its FEN at the end of the session (one process = one set of random tables)
+    gpool = [g for g in games if len(g[1]) >= 4][: (300 if q else 3000)]
+    sessions = uciglue.gen_sessions(ctx.rng, gpool, 80 if q else 1500)
+    exp = uciglue.expected_fens(model, run_lines, sessions, shards=NPROC)
+    for sess, ex_ in zip(sessions, exp):
+        # reload every distinct expected position from its FEN at the end
+        for e in list(dict.fromkeys(x for x in ex_ if x)):
+            sess.append(("position fen " + e, (e, [])))
+    exp = uciglue.expected_fens(model, run_lines, sessions, shards=NPROC)
+    got = uciglue.run_sessions(exe, sessions)
+    ns = 0
+    for sess, ex_, gt in zip(sessions, exp, got):
+        seen_h = {}
+        for i, ((cmd, st), e, o) in enumerate(zip(sess, ex_, gt)):
+            if e is None or o["hash"] is None:
+                break
+            ns += 1
+            k4 = " ".join(e.split()[:4])
+            if k4 in seen_h and seen_h[k4][0] != o["hash"]:
+                v2 += 1
+                if v2 <= 8:
+                    ctx.violation("UCI session: the position '%s' shows hash %s after [%s] but %s after [%s]"
+                                  % (k4, seen_h[k4][0], " ; ".join(c[:120] for c, _ in sess[: seen_h[k4][1] + 1]), o["hash"], " ; ".join(c[:120] for c, _ in sess[: i + 1])),
+                                  {"session": [c for c, _ in sess[: i + 1]] + ["printboard"], "hashes": [seen_h[k4][0], o["hash"]]}, key="c04:sess:" + " ; ".join(c for c, _ in sess[: i + 1])[:300])
+                break
+            seen_h.setdefault(k4, (o["hash"], i))
+    ctx.notes["uci_session_hashes_checked"] = ns
     # sanity (validation only): distinct positions got distinct keys in this process
     keys = {}
     coll = 0
